@@ -35,6 +35,8 @@ SELECTIONS = [
     ("t2gui", "leaves&tutorial2,tutorial_gui"),
     ("get", "leaves&tutorial_get"),
     ("getnoop", "leaves&tutorial_get..explicit_noop"),
+    # a removable setup test selected as a leaf together with its dependant
+    ("getgui", "leaves&tutorial_get..explicit_noop,tutorial_gui..client_noop"),
     ("finale", "leaves&tutorial_finale"),
     ("t1t3", "normal&tutorial1,tutorial3"),
     ("nongui", "normal&nongui"),
@@ -60,7 +62,7 @@ WORKER_SETS = [
 
 def catalogue(tier, lazy_share=True):
     """All scenarios of the tier as Scenario objects, cheapest first within a round-robin order."""
-    small = ["t1", "t12", "t2l", "t3", "gui", "getnoop", "connect"]
+    small = ["t1", "t12", "t2l", "t3", "gui", "getnoop", "getgui", "connect"]
     scenarios = []
     # other vm variants and extra parameters (few, the variety is in the worker sets below)
     fedora = dict(DEFAULT_VMS, vm1="only Fedora\n")
@@ -275,7 +277,8 @@ def scope_group(sim, event):
 
 def labels_of(sim, case):
     labels = [f"workers={len(sim.workers)}", "lazy" if case["scenario"]["lazy"] else "eager",
-              "pools=" + case["pools"].get("mode", "?"), f"T={case['run'].get('test_timeout')}"]
+              "pools=" + case["pools"].get("mode", "?"), f"T={case['run'].get('test_timeout')}",
+              "selection=" + str(case.get("scenario_name", "?")).split("/")[0]]
     starts = sim.starts()
     ends = sim.ends()
     if any(e["attempt"] > 0 for e in starts):
@@ -582,6 +585,10 @@ def oracle_c05(sim, case):
                     where = "same-swarm"
                 else:
                     where = "other-swarm"
+                if where == "other-swarm":
+                    # which kind of worker decided: a remote worker's decision only covers its own swarm (C05-F1),
+                    # a local worker's decision covers every involved worker
+                    where = "other-swarm/" + str(sim.workers[worker]["spawner"]) + "-remover"
                 if start["i"] < event["i"] and (end is None or end["i"] > event["i"]):
                     yield Violation({"oracle": "removed-while-dependant-running", "dependant-on": where},
                                     f"{worker} removed {request['state']} at t={t} while {start['worker']} runs {start['ident']}\n" + brief(sim, 120), case)
@@ -827,7 +834,7 @@ NONTRIVIAL = {
 }
 
 
-def make_run(prop, bias, scenario_filter=None, quick_cases=1280, thorough_cases=16000, per_shard_scenarios=(4, 12),
+def make_run(prop, bias, scenario_filter=None, quick_cases=1280, thorough_cases=16000, per_shard_scenarios=(6, 16),
              enumerate_failures=False):
     def run(ctx):
         simmod.setup()
@@ -851,6 +858,9 @@ def make_run(prop, bias, scenario_filter=None, quick_cases=1280, thorough_cases=
                 ctx.extra["max_traversal_steps"] = max(ctx.extra.get("max_traversal_steps", 0), sim.steps)
                 ctx.extra["max_loop_iterations"] = max(ctx.extra.get("max_loop_iterations", 0), sim.iterations)
                 ctx.extra["max_steps_without_progress"] = max(ctx.extra.get("max_steps_without_progress", 0), sim.max_gap)
+                ctx.extra["max_steps_without_clock_advance"] = max(ctx.extra.get("max_steps_without_clock_advance", 0), sim.max_spin_seen)
+                ctx.extra["max_idle_fraction_of_bound_x1000"] = max(ctx.extra.get("max_idle_fraction_of_bound_x1000", 0),
+                                                                    int(1000 * sim.max_idle_seen / sim.idle_bound))
                 composites = max(1, len([n for n in sim.graph.nodes if not n.is_flat()]))
                 per_node = sim.executions / composites
                 ctx.extra["max_executions_per_node_x1000"] = max(ctx.extra.get("max_executions_per_node_x1000", 0), int(per_node * 1000))
